@@ -274,6 +274,7 @@ inductive ScanErr where
   | eof           -- `read_exact` of the 4 magic bytes runs past the end of the file
   | badMagic      -- "Invalid LZIP magic bytes"
   | noMembers     -- "No valid LZIP members found"
+  | leading       -- "Data in front of the first LZIP member": 1..19 bytes are left, too few for a member
   | arith         -- model only: an unsigned subtraction underflowed
   | fuel          -- model only: the fuel ran out
 deriving Repr, DecidableEq
@@ -292,7 +293,7 @@ def scanLoop (fileSize : Nat) (memberSizeAt : Nat → Nat) (magicAt : Nat → Bo
   | 0, _, _ => .error .fuel
   | fuel+1, cur, acc =>
     if cur = 0 then .ok acc
-    else if cur < Consts.LZIP_TRAILER_SIZE then .ok acc          -- `break`
+    else if cur < Consts.LZIP_TRAILER_SIZE then .error .leading  -- (was `break`: the bytes were ignored)
     else
       -- `current_pos - TRAILER_SIZE`
       match sub cur Consts.LZIP_TRAILER_SIZE with
